@@ -1,6 +1,6 @@
 (* C05/Examples.v — concrete instances: the hypotheses of the theorems are satisfiable (non-vacuity), and
    the witnesses of the refuted clauses (findings F05a, F05c).  Everything by computation. *)
-Require Import CF.C05.Model CF.C05.Proofs_create CF.C05.Proofs_add CF.C05.Proofs_unpack CF.C05.Proofs_flags CF.C05.Proofs_hist CF.C05.Proofs_sync.
+Require Import CF.C05.Model CF.C05.Proofs_create CF.C05.Proofs_add CF.C05.Proofs_unpack CF.C05.Proofs_flags CF.C05.Proofs_hist CF.C05.Proofs_sync CF.C05.SyncThreads CF.C05.Proofs_threads.
 Open Scope Z_scope.
 
 (* a TOC with 12 one-byte variables (idents 300..311) and a float *)
@@ -169,4 +169,27 @@ Proof. vm_compute. reflexivity. Qed.
 Example ex_sync_reuse :
   snd (sl_run sl_init [SConnect; SSample 7; SLinkLost; SConnect; SSample 1; SNext; SNext])
     = [YNone; YNone; YNone; YNone; YNone; YSample 1; YBlocked].
+Proof. vm_compute. reflexivity. Qed.
+
+(* ---------------------------------------------------------------- SyncLogger under threads *)
+(* two loggers on one Crazyflie (own blocks 0 and 1,2), a block 3 without logger: samples go to their
+   owner only; a consumer inside get() when the link is lost takes what was queued, then stops *)
+Example ex_threads_two_loggers :
+  snd (sys_run [tsl_init [0]; tsl_init [1; 2]]
+         [SOp 0 TConnect; SOp 1 TConnect; SOp 1 TNext; SSampleAll 0 5; SSampleAll 3 9; SSampleAll 2 6; SOp 1 TGet;
+          SOp 1 TNext; SLostAll; SOp 1 TGet; SOp 1 TLost2; SOp 1 TGet; SOp 1 TNext; SOp 0 TNext])
+    = [ONone; ONone; OInGet; ONone; ONone; ONone; OYield 6; OInGet; ONone; ONoop; ONone; OStop; OStop; OStop].
+Proof. vm_compute. reflexivity. Qed.
+
+(* OBSERVATION (not claimed as a violation): disconnect() called by another thread while the consumer is
+   inside get() on an empty queue: no sentinel is put, the consumer stays blocked *)
+Example ex_threads_explicit_disconnect_blocks :
+  stuck (fst (t_run (tsl_init [0]) [TConnect; TNext; TDisconnect])).
+Proof. vm_compute. repeat split; reflexivity. Qed.
+
+(* OBSERVATION: connect() scheduled between the two halves of _disconnected: the sentinel of the old
+   session lands in the queue of the new one and ends its iteration *)
+Example ex_threads_stale_sentinel_race :
+  snd (t_run (tsl_init [0]) [TConnect; TLost1; TConnect; TLost2; TSample 0 7; TNext; TGet])
+    = [ONone; ONone; ONone; ONone; ONone; OInGet; OStop].
 Proof. vm_compute. reflexivity. Qed.
